@@ -59,5 +59,6 @@ func releaseWriterState(s *writerState) {
 	s.reset()
 	s.releaseState = false
 	s.releaseWriter = false
+	vpoolPutState(s)
 	writerStatePool.Put(s)
 }
